@@ -11,11 +11,14 @@ import (
 	"github.com/hashicorp/memberlist"
 	"github.com/vx-labs/commitlog/stream"
 	"github.com/vx-labs/mqtt-protocol/decoder"
+	"github.com/vx-labs/mqtt-protocol/encoder"
 	"github.com/vx-labs/mqtt-protocol/packet"
 	"github.com/vx-labs/wasp/v4/wasp/ack"
 	"github.com/vx-labs/wasp/v4/wasp/audit"
+	"github.com/vx-labs/wasp/v4/wasp/auth"
 	"github.com/vx-labs/wasp/v4/wasp/distributed"
 	"github.com/vx-labs/wasp/v4/wasp/sessions"
+	"github.com/vx-labs/wasp/v4/wasp/transport"
 	rt "github.com/vx-labs/wasp/v4/zzsymxrt"
 	"go.uber.org/zap"
 )
@@ -268,4 +271,126 @@ func (b *symxBroker) start(tr publishDistributorTransport) *symxPipeline {
 // expire runs an expiry sweep at the given virtual instant (what the writer's ticker does every second).
 func (b *symxBroker) expire(sec, nsec int64) {
 	b.acks.Expire(time.Unix(sec, nsec))
+}
+
+// ---- connection level: the real setup worker and serve loop over a fake connection ----
+
+type symxAuth struct {
+	fail       bool
+	mountPoint string
+	ids        []string
+	next       int
+}
+
+func (a *symxAuth) Authenticate(ctx context.Context, mqtt auth.ApplicationContext, tr auth.TransportContext) (auth.Principal, error) {
+	if a.fail {
+		return auth.Principal{}, errors.New("bad credentials")
+	}
+	id := a.ids[a.next%len(a.ids)]
+	a.next++
+	mp := a.mountPoint
+	if len(mqtt.Username) > 0 {
+		mp = string(mqtt.Username) // harnesses select the tenant through the user name
+	}
+	return auth.Principal{ID: id, MountPoint: mp}, nil
+}
+
+type symxFront struct {
+	*symxPipeline
+	auth *symxAuth
+	mgr  *manager
+}
+
+func (p *symxPipeline) front(a *symxAuth) *symxFront {
+	m := NewConnectionManager(a, p.local, p.state, p.writer, p.proc, p.acks).(*manager)
+	return &symxFront{symxPipeline: p, auth: a, mgr: m}
+}
+
+// connect runs the real setup on a fresh connection fed with the CONNECT bytes; on success the
+// real serve loop is left running on the connection.
+func (f *symxFront) connect(c *symxConn, connectBytes []byte) error {
+	c.feed(connectBytes)
+	w := &setupWorker{manager: f.mgr, decoder: decoder.New(), encoder: encoder.New(), authHandler: f.auth, state: f.state, local: f.local, writer: f.writer}
+	return w.setup(f.ctx, transport.Metadata{Name: "tcp", Channel: c})
+}
+
+func symxLP(b []byte) []byte { return append([]byte{byte(len(b) >> 8), byte(len(b))}, b...) }
+
+func symxFrame(first byte, body []byte) []byte {
+	out := []byte{first}
+	n := len(body)
+	for {
+		d := byte(n % 128)
+		n /= 128
+		if n > 0 {
+			d |= 0x80
+		}
+		out = append(out, d)
+		if n == 0 {
+			break
+		}
+	}
+	return append(out, body...)
+}
+
+// symxConnectBytes encodes an MQTT 3.1.1 CONNECT.
+func symxConnectBytes(clientID string, keepalive uint16, user string, willTopic, willPayload []byte, willQos byte, willRetain bool) []byte {
+	var flags byte = 2 // clean session
+	body := append(symxLP([]byte("MQTT")), 4)
+	if len(willTopic) > 0 {
+		flags |= 4 | (willQos << 3)
+		if willRetain {
+			flags |= 32
+		}
+	}
+	if user != "" {
+		flags |= 128
+	}
+	body = append(body, flags, byte(keepalive>>8), byte(keepalive))
+	body = append(body, symxLP([]byte(clientID))...)
+	if len(willTopic) > 0 {
+		body = append(body, symxLP(willTopic)...)
+		body = append(body, symxLP(willPayload)...)
+	}
+	if user != "" {
+		body = append(body, symxLP([]byte(user))...)
+	}
+	return symxFrame(0x10, body)
+}
+
+func symxPingReq() []byte    { return []byte{0xC0, 0} }
+func symxDisconnect() []byte { return []byte{0xE0, 0} }
+func symxPublishBytes(topic string, payload []byte, qos byte, id uint16, retain bool) []byte {
+	body := symxLP([]byte(topic))
+	if qos > 0 {
+		body = append(body, byte(id>>8), byte(id))
+	}
+	first := byte(0x30) | qos<<1
+	if retain {
+		first |= 1
+	}
+	return symxFrame(first, append(body, payload...))
+}
+func symxSubscribeBytes(id uint16, filter string, qos byte) []byte {
+	body := append([]byte{byte(id >> 8), byte(id)}, symxLP([]byte(filter))...)
+	return symxFrame(0x82, append(body, qos))
+}
+
+func symxConnAcks(ps []packet.Packet) (codes []int32) {
+	for _, p := range ps {
+		if a, ok := p.(*packet.ConnAck); ok {
+			codes = append(codes, a.ReturnCode)
+		}
+	}
+	return
+}
+
+func symxCount(ps []packet.Packet, typ byte) int {
+	n := 0
+	for _, p := range ps {
+		if p.Type() == typ {
+			n++
+		}
+	}
+	return n
 }
